@@ -145,7 +145,7 @@ pub struct TieCase {
     pub fillers: u8,
 }
 
-fn single_r(kind: Kind, x: u64) -> u64 {
+pub fn single_r(kind: Kind, x: u64) -> u64 {
     let mut s = make(kind, 1, &SsParams { b: F(1.001), a: F(20.0), q: 100 });
     s.sketch(x);
     s.finish();
@@ -416,7 +416,7 @@ fn long_strategy() -> impl Strategy<Value = LongCase> {
         .prop_map(|(kind, m, n, seed)| LongCase { kind, m: if kind.is_set() { m.min(4096) } else { m }, n, seed })
 }
 
-fn tie_strategy(window: u32) -> impl Strategy<Value = TieCase> {
+pub fn tie_strategy(window: u32) -> impl Strategy<Value = TieCase> {
     (prop::sample::select(vec![Kind::OptF32, Kind::RevF32, Kind::OptF64, Kind::RevF64]), any::<u64>(), 0u8..6).prop_map(move |(kind, base, fillers)| TieCase { kind, base, window, fillers })
 }
 
